@@ -54,6 +54,10 @@ def run(repo, rep, tier):
     r2 = rep.rule("R5.2", "conservation: entries += the caller's weight exactly once; children receive that weight", floor=150)
     r3 = rep.rule("R5.3", "float-derived index into a fixed-length child sequence is clamped", floor=2)
     r4 = rep.rule("R5.4", "scaling table derived from fill is what __mul__ implements", floor=40)
+    # totals are conserved across siblings only if a node leaves the caller's weight array alone (a sibling filled afterwards would
+    # see zeroed weights while the parent counted them) and only if += really updates the child it is applied to
+    rep.borrow(repo, "C03", {"R3.3": ("R5.5", "a node never writes into the weight/data arrays its siblings and parent also use", 400)})
+    rep.borrow(repo, "C07", {"R7.2": ("R5.6", "child += other_child updates the child (every __iadd__ returns self), so children keep the parent's entries", 19)})
     for c in prims:
         fill = repo.own_method(c, "fill")
         npf = repo.own_method(c, "_numpy")
